@@ -232,7 +232,11 @@ static int judge(codec *c,const short *pcm,int mdb,const char *how,int *len_out)
    MC_INC(c_dec);
    /* (c) CBR size */
    if (!c->use_vbr){
-      if (empty){ MC_INC(c_empty); c->last_valid=0; }
+      opus_int32 dtx_on=0;
+      if (empty){ if (c->ms) opus_multistream_encoder_ctl(c->enc,OPUS_GET_DTX(&dtx_on)); else opus_encoder_ctl(c->enc,OPUS_GET_DTX(&dtx_on)); }
+      /* "every packet that is not a DTX packet": with OPUS_SET_DTX(0) no packet is one, so an empty packet (every frame payload <= 1 byte, e.g. the
+         low-budget TOC-only path) is exempt only while DTX is enabled; with DTX off it must have the CBR size like any other packet */
+      if (empty && dtx_on){ MC_INC(c_empty); c->last_valid=0; }
       else if (c->braw==OPUS_BITRATE_MAX){
          int want = c->ms? mdb : (nframes==1? (mdb<1276?mdb:1276) : mdb);
          if (ret!=want){
@@ -267,7 +271,7 @@ static int judge(codec *c,const short *pcm,int mdb,const char *how,int *len_out)
    /* observation classes: what kinds of packets did the exploration actually see (only packets that passed every clause) */
    if (!szfail){
       int szc = ret<=2?ret:ret<8?3:ret<32?4:ret<128?5:ret<512?6:ret<1276?7:ret==1276?8:9;
-      int clause = c->use_vbr?(c->cvbr?5:4):empty?0:c->braw==OPUS_BITRATE_MAX?1:c->braw==OPUS_AUTO?2:3;
+      int clause = c->use_vbr?(c->cvbr?5:4):(empty&&ret<=2)?0:c->braw==OPUS_BITRATE_MAX?1:c->braw==OPUS_AUTO?2:3;
       uint64_t h=mc_mix(mc_mix(c->ms*16+c->streams,toc0),mc_mix(code0*64+(nframes>63?63:nframes),szc*16+clause)); h=mc_mix(h,(ret==mdb)*2+empty);
       if (mc_set_add(g_obs,h))
          mc_sample("%s mode=%s bitrate=%s max_data_bytes=%d -> %d bytes, %d frame(s), TOC config %d code %d%s; RFC model + decoder accept%s | %s",
